@@ -238,7 +238,7 @@ def check(ctx: vlib.Ctx) -> int:
     # ---- Cartesian
     lits, meta = [], []
     specs = []
-    for _ in range(ctx.scale(500, 6000)):
+    for _ in range(ctx.scale(1500, 8000)):
         specs.append(gen_cart(rng, True) + ("property",))
     for _ in range(ctx.scale(150, 1500)):
         specs.append(gen_cart(rng, False) + ("preconditions violated",))
